@@ -638,6 +638,13 @@ func (e *specEnv) evalCall(s *SpecExpr) (Term, types.Type) {
 		case "zero":
 			t := x.resolveType(e.pkg, specTypeText(args[0]))
 			return x.zero(t), t
+		case "render":
+			t, _ := e.eval(args[0])
+			d, dt := e.eval(args[1])
+			if !isInterface(dt) {
+				d = e.boxPure(d, dt)
+			}
+			return x.ctx.App("spec_render", SStr, t, d), strT
 		case "called":
 			// called("Name"): how many calls of the function (short name or full external name) happened so far on this path
 			if args[0].Kind != "str" {
